@@ -1,4 +1,5 @@
 import Revm.Proofs.FrameLoop
+import Revm.Proofs.FrameRestore
 /-! C07 — every call / create / eofcreate frame returns with the journal depth it started from, whatever
 its outcome; consequently nesting reaches exactly 1024 levels below the transaction frame, whatever
 happened earlier in the transaction.
@@ -11,6 +12,7 @@ i.e. over every program. `= some …` excludes Rust panics (`none`) only; `.fata
 aborts the transaction (no frame result exists). -/
 namespace Revm.Props.C07
 open Revm Revm.Model.Journal Revm.Model.Frame Revm.Proofs.Frame
+open Revm.Spec.JournalAbs hiding step run
 
 /-! ### frames are depth-neutral -/
 
@@ -215,6 +217,161 @@ theorem nesting_reaches_1024 (db : Db) (spec : Nat) (l : Loop) (caller a : Addr)
   intro inp o s' r h
   exact ((max_depth db spec l' inp o s' r hr' h).1).2 hlev
 
+
+/-! ### no panics: the `= some …` hypotheses discharged from journal well-formedness (C06)
+
+`Good s`: the journal refers only to accounts / slots present in the state map (`JRefs`), it has at least the
+transaction level, cached balances are 256-bit words; `DbBal db`: so are the balances in the database. Both hold
+for `JournaledState::new` over any real database and are preserved by every journal operation, every frame
+function and every iteration of the loop (`LInv`), so they hold along unbounded runs. -/
+
+/-- `make_call_frame` never hits an `unwrap` / index underflow, keeps the journal well-formed, and is
+depth-neutral: immediate results leave the depth, an opened frame returns to it through `call_return` (which
+does not panic either) whatever its result -/
+theorem frame_depth_neutral_call_total (db : Db) (s : JState) (inp : CallInputs) (o : CallOracle)
+    (hdb : DbBal db) (g : Good s) :
+    ∃ s1 r, makeCallFrame db s inp o = some (s1, r) ∧ Good s1 ∧
+      (∀ res, r = .result res → s1.depth = s.depth) ∧
+      (∀ cp, r = .frame cp → ∀ (s2 : JState) (ok : Bool), Good s2 → cp.journalI < s2.journal.length →
+          s2.depth = s1.depth → ∃ s3, callReturn s2 cp ok = some s3 ∧ Good s3 ∧ s3.depth = s.depth) := by
+  obtain ⟨s1, r, h, fo⟩ := makeCallFrame_total hdb g inp o
+  obtain ⟨hres, hfr⟩ := frame_depth_neutral_call db s s1 inp o r h
+  refine ⟨s1, r, h, fo.good, hres, ?_⟩
+  intro cp hr s2 ok g2 hlt hd
+  have hpos := journal_len_pos g
+  obtain ⟨s3, h3, g3, _, _⟩ := callReturn_total g2 ok (by have := (fo.cp cp hr).1; omega) hlt
+  exact ⟨s3, h3, g3, hfr cp hr s2 s3 ok hd h3⟩
+
+/-- the same for `make_create_frame` / `create_return` -/
+theorem frame_depth_neutral_create_total (db : Db) (s : JState) (spec : Nat) (inp : CreateInputs) (o : CreateOracle)
+    (hdb : DbBal db) (g : Good s) :
+    ∃ s1 r a, makeCreateFrame db s spec inp o = some (s1, r, a) ∧ Good s1 ∧
+      (∀ res, r = .result res → s1.depth = s.depth) ∧
+      (∀ cp, r = .frame cp → ∀ (s2 : JState) (ret : CreateRet), Good s2 → cp.journalI < s2.journal.length →
+          (s2.state a).isSome → s2.depth = s1.depth →
+          ∃ s3 res, createReturn s2 spec cp a ret = some (s3, res) ∧ Good s3 ∧ s3.depth = s.depth) := by
+  obtain ⟨s1, r, a, h, fo, _⟩ := makeCreateFrame_total hdb g spec inp o
+  obtain ⟨hres, hfr⟩ := frame_depth_neutral_create db s s1 spec inp o r a h
+  refine ⟨s1, r, a, h, fo.good, hres, ?_⟩
+  intro cp hr s2 ret g2 hlt ha hd
+  have hpos := journal_len_pos g
+  obtain ⟨s3, res, h3, g3, _, _⟩ := createReturn_total g2 spec a ret (by have := (fo.cp cp hr).1; omega) hlt ha
+  exact ⟨s3, res, h3, g3, hfr cp hr s2 s3 ret res hd h3⟩
+
+/-- the same for `make_eofcreate_frame` / `eofcreate_return`; the two conditions outside the journal are explicit:
+for a create transaction the caller is loaded (`deduct_caller` did it), and the deployed container decodes
+(`Eof::decode(..).expect(..)`) -/
+theorem frame_depth_neutral_eofcreate_total (db : Db) (s : JState) (spec : Nat) (inp : CreateInputs) (kind : EofCreateKind)
+    (o : CreateOracle) (hdb : DbBal db) (g : Good s)
+    (hcaller : ∀ d v f, kind = .tx d v f → (s.state inp.caller).isSome) :
+    ∃ s1 r a, makeEofCreateFrame db s spec inp kind o = some (s1, r, a) ∧ Good s1 ∧
+      (∀ res, r = .result res → s1.depth = s.depth) ∧
+      (∀ cp, r = .frame cp → ∀ (s2 : JState) (ret : EofCreateRet), Good s2 → cp.journalI < s2.journal.length →
+          (s2.state a).isSome → ret.decodes = true → s2.depth = s1.depth →
+          ∃ s3 res, eofcreateReturn s2 cp a ret = some (s3, res) ∧ Good s3 ∧ s3.depth = s.depth) := by
+  obtain ⟨s1, r, a, h, fo, _⟩ := makeEofCreateFrame_total hdb g spec inp kind o hcaller
+  obtain ⟨hres, hfr⟩ := frame_depth_neutral_eofcreate db s s1 spec inp kind o r a h
+  refine ⟨s1, r, a, h, fo.good, hres, ?_⟩
+  intro cp hr s2 ret g2 hlt ha hdec hd
+  have hpos := journal_len_pos g
+  obtain ⟨s3, res, h3, g3, _, _⟩ := eofcreateReturn_total g2 a ret (by have := (fo.cp cp hr).1; omega) hlt ha hdec
+  exact ⟨s3, res, h3, g3, hfr cp hr s2 s3 ret res hd h3⟩
+
+/-- one iteration of the loop never panics and keeps both invariants (`Inv`: depth = open frames; `LInv`: journal
+well-formed, frame checkpoints strictly nested below the journal length, created addresses loaded). `actOk`: the
+instruction's own account is loaded (SLOAD / SSTORE / SELFDESTRUCT `unwrap` it), the deployed EOF container decodes. -/
+theorem loop_step_total (db : Db) (spec : Nat) (l : Loop) (a : Action) (hdb : DbBal db) (hi : Inv l) (hl : LInv l)
+    (hok : actOk l a) :
+    ∃ out, step db spec l a = some out ∧ OutInv out ∧ ∀ l', out = .running l' → LInv l' := by
+  obtain ⟨out, h, hl'⟩ := step_total (spec := spec) hdb hi hl a hok
+  exact ⟨out, h, step_inv hi h, hl'⟩
+
+/-- **a whole transaction body never panics**: from a well-formed depth-0 journal, any first frame, ANY program of
+any length (whose instructions satisfy `actOk` in the state they execute in): `run_the_loop` produces an outcome,
+while it runs depth = call_stack.len() in 1..=1025 and the journal stays well-formed, when it ends depth = 0 -/
+theorem loop_depth_invariant_total (db : Db) (spec : Nat) (s : JState) (f : FirstFrame) (prog : List Action)
+    (hdb : DbBal db) (g : Good s) (h0 : s.depth = 0)
+    (hcaller : ∀ inp d v x o, f = .eofcreate inp (.tx d v x) o → (s.state inp.caller).isSome)
+    (hacts : ∀ l, firstFrame db spec s f = some (.running l) → ActsOk db spec l prog) :
+    ∃ out, transactFrames db spec s f prog = some out ∧ OutInv out ∧ ∀ l', out = .running l' → LInv l' := by
+  obtain ⟨out1, h1, hl1⟩ := firstFrame_total (spec := spec) hdb g f hcaller
+  have hi1 := firstFrame_inv h0 h1
+  cases out1 with
+  | running l =>
+    obtain ⟨out, h2, hl2⟩ := run_total (spec := spec) hdb prog hi1 (hl1 l rfl) (hacts l h1)
+    have ht : transactFrames db spec s f prog = some out := by simp [transactFrames, h1, h2]
+    exact ⟨out, ht, transactFrames_inv h0 ht, hl2⟩
+  | done js r =>
+    have ht : transactFrames db spec s f prog = some (.done js r) := by simp [transactFrames, h1]
+    exact ⟨_, ht, transactFrames_inv h0 ht, fun _ e => by cases e⟩
+  | fatal =>
+    have ht : transactFrames db spec s f prog = some .fatal := by simp [transactFrames, h1]
+    exact ⟨_, ht, trivial, fun _ e => by cases e⟩
+
+/-! ### a failing frame restores the state (C06 applied to the whole frame machine)
+
+`body` is ANY admissible C06 history (`Spec.JournalAbs.Op`: loads, transfers, nonce / code / storage / transient
+writes, logs, selfdestructs, creations, and the nested frames as `checkpoint` / `commit` / `revert`) run in the
+frame after it was opened. `AbsEq` compares balances, nonces, code hashes, storage (original / present), transient
+storage, logs, created / selfdestructed / touched marks and the warm / cold status of accounts and slots. -/
+
+/-- CALL family, frame opened, non-ok result: state = the state right after `load_account_delegated(bytecode_address)`
+(the only effect of `make_call_frame` outside its checkpoint: it warms that account and a 7702 delegate) -/
+theorem frame_state_restored_on_failure_call (db : Db) (hasStorage : Addr → Bool) (s s1 : JState) (inp : CallInputs)
+    (o : CallOracle) (cp : Checkpoint) (hdb : DbBal db) (hok : DbOk db hasStorage) (g : Good s)
+    (h : makeCallFrame db s inp o = some (s1, .frame cp)) (body : List Op) (r : Run)
+    (hadm : admissibleRun db hasStorage 1 { js := s1, cps := [cp] } body = true)
+    (hrun : Spec.JournalAbs.run db { js := s1, cps := [cp] } body = some r) :
+    ∃ s0 x s3, loadAccountDelegated db s inp.bytecodeAddr = some (s0, x) ∧ callReturn r.js cp false = some s3 ∧
+      AbsEq db s3 s0 :=
+  call_frame_restored hdb hok g h body r hadm hrun
+
+/-- CALL family, rejected after the checkpoint (value transfer failure, precompile failure, EXTDELEGATECALL to a
+non-EOF target): the same -/
+theorem frame_state_restored_on_failure_call_rejected (db : Db) (s s1 : JState) (inp : CallInputs) (o : CallOracle)
+    (res : IRes) (hdb : DbBal db) (g : Good s)
+    (h : makeCallFrame db s inp o = some (s1, .result res)) (hnok : res.isOk = false) (hnd : res ≠ .callTooDeep) :
+    ∃ s0 x, loadAccountDelegated db s inp.bytecodeAddr = some (s0, x) ∧ AbsEq db s1 s0 :=
+  call_rejected_restored hdb g h hnok hnd
+
+/-- CREATE / CREATE2, frame opened, anything but a deployment: state = `sPre`, the state at the CREATE up to the
+pre-checkpoint effects `PreCreate` (caller warm and its nonce bumped, created address warm). `CreateAdm` is C06's
+admissibility of a creation: the address is not already marked created in this transaction, `has_storage` answered
+faithfully (C21); that the caller covers the endowment is proved from the frame function's balance check. -/
+theorem frame_state_restored_on_failure_create (db : Db) (hasStorage : Addr → Bool) (s s1 : JState) (spec : Nat)
+    (inp : CreateInputs) (o : CreateOracle) (cp : Checkpoint) (a : Addr)
+    (hdb : DbBal db) (hok : DbOk db hasStorage) (g : Good s)
+    (h : makeCreateFrame db s spec inp o = some (s1, .frame cp, a))
+    (hadmc : ∀ sPre, PreCreate db s inp.caller a sPre → CreateAdm hasStorage sPre a (o.hasStorage a))
+    (body : List Op) (r : Run)
+    (hadm : admissibleRun db hasStorage 1 { js := s1, cps := [cp] } body = true)
+    (hrun : Spec.JournalAbs.run db { js := s1, cps := [cp] } body = some r) :
+    ∃ sPre sR, PreCreate db s inp.caller a sPre ∧ revert r.js cp = some sR ∧ AbsEq db sR sPre ∧
+      ∀ ret s3 res, createReturn r.js spec cp a ret = some (s3, res) → res ≠ .ret → s3 = sR :=
+  create_frame_restored hdb hok g h hadmc body r hadm hrun
+
+/-- EOFCREATE / EOF create transaction: the same -/
+theorem frame_state_restored_on_failure_eofcreate (db : Db) (hasStorage : Addr → Bool) (s s1 : JState) (spec : Nat)
+    (inp : CreateInputs) (kind : EofCreateKind) (o : CreateOracle) (cp : Checkpoint) (a : Addr)
+    (hdb : DbBal db) (hok : DbOk db hasStorage) (g : Good s)
+    (h : makeEofCreateFrame db s spec inp kind o = some (s1, .frame cp, a))
+    (hadmc : ∀ sPre, PreCreate db s inp.caller a sPre → CreateAdm hasStorage sPre a (o.hasStorage a))
+    (body : List Op) (r : Run)
+    (hadm : admissibleRun db hasStorage 1 { js := s1, cps := [cp] } body = true)
+    (hrun : Spec.JournalAbs.run db { js := s1, cps := [cp] } body = some r) :
+    ∃ sPre sR, PreCreate db s inp.caller a sPre ∧ revert r.js cp = some sR ∧ AbsEq db sR sPre ∧
+      ∀ ret s3 res, eofcreateReturn r.js cp a ret = some (s3, res) → res ≠ .returnContract → s3 = sR :=
+  eofcreate_frame_restored hdb hok g h hadmc body r hadm hrun
+
+/-- a creation rejected inside `create_account_checkpoint` (CreateCollision with an existing account,
+OverflowPayment): its own checkpoint is reverted and the state is the one right before it -/
+theorem frame_state_restored_on_failure_create_rejected (db : Db) (hasStorage : Addr → Bool) (sPre s1 : JState)
+    (caller created : Addr) (hsAns : Bool) (v spec : Nat) (e : CreateErr)
+    (hdb : DbBal db) (hok : DbOk db hasStorage) (g : Good sPre) (ca : CreateAdm hasStorage sPre created hsAns)
+    (hf : ∀ acc, sPre.state caller = some acc → v ≤ acc.info.balance)
+    (hc : createAccountCheckpoint sPre caller created hsAns v spec = some (s1, .error e)) : AbsEq db s1 sPre :=
+  create_rejected_restored hdb hok g ca hf hc
+
 /-! ### the hypotheses are satisfiable; the repaired leak -/
 
 def exDb : Db :=
@@ -309,6 +466,33 @@ theorem nesting_hypotheses_example : ∃ l, Reachable exDb 19 l ∧ Warm exDb l.
         exact ⟨acc, KECCAK_EMPTY, hs, hv.1, hv.2, rfl⟩
     | done js r => simp [warmView] at hv
     | fatal => simp [warmView] at hv
+
+
+/-- the hypotheses of the total theorems hold for a fresh journal over the example database -/
+theorem total_hypotheses_example : DbBal exDb ∧ Good exS ∧ exS.depth = 0 ∧ DbOk exDb (fun _ => false) := by
+  refine ⟨?_, good_new _ _, rfl, fun a _ k => rfl⟩
+  intro a
+  have hW := W_val
+  simp only [exDb]
+  by_cases h : a = 1
+  · simp [h]; omega
+  · simp [h, Info.default]; omega
+
+/-- and for a program: a BALANCE, a nested call, its return (`ActsOk` is evaluated along the run) -/
+example (l : Loop) : ActsOk exDb 19 l [.host (.balance 5), .call (exCall false (.transfer 0)) (exO none false false), .ret (exRet true)] :=
+  ⟨trivial, fun _ _ => ⟨trivial, fun _ _ => ⟨rfl, fun _ _ => trivial⟩⟩⟩
+
+/-- `CreateAdm` holds for the creation of the example (fresh address, no storage in the database) -/
+example : ∀ sPre, PreCreate exDb exS 1 1001 sPre → CreateAdm (fun _ => false) sPre 1001 false := by
+  intro sPre hp
+  refine ⟨?_, Or.inr rfl⟩
+  obtain ⟨s1, c, n, s2, c3, h1, h2, h3⟩ := hp
+  intro acc hacc
+  -- the created address was absent before the load, a loaded account is not marked created
+  have hv : ((loadAccount exDb exS 1).bind fun p => (incNonce p.1 1).bind fun q => (loadAccount exDb q.1 1001).bind fun t =>
+      (t.1.state 1001).map fun a => a.created) = some false := by decide
+  simp only [h1, h2, h3, Option.bind_some, hacc, Option.map_some, Option.some.injEq] at hv
+  exact hv
 
 /-- REGRESSION (the code before /repo commit 4cdd3651): `make_call_frame` returned InvalidExtDelegateCallTarget
 after `checkpoint()` without closing it. For that version `frame_depth_neutral_call` is FALSE: the immediate
